@@ -586,10 +586,18 @@ class ChangePoint(CovarianceFunction):
 
         for i in range(self.n_kernels - 1):
             w = w_vals[i]
+            # factors of the neighbouring change-points in the coefficients of kernels i and i+1
+            c1 = 1.0 if i == 0 else w_vals[i - 1][:, None] * w_vals[i - 1][None, :]
+            if i == self.n_kernels - 2:
+                c2 = 1.0
+            else:
+                c2 = (1 - w_vals[i + 1])[:, None] * (1 - w_vals[i + 1])[None, :]
             for dw in w_grads[i]:
                 A = -dw[:, None] * (1 - w)[None, :]
                 B = dw[:, None] * w[None, :]
-                gradients.append(K_vals[i] * (A + A.T) + K_vals[i + 1] * (B + B.T))
+                gradients.append(
+                    K_vals[i] * c1 * (A + A.T) + K_vals[i + 1] * c2 * (B + B.T)
+                )
         return covar, gradients
 
     @staticmethod
